@@ -283,3 +283,301 @@ Qed.
 
 Lemma t_gradient_magnitude : forall gx gy, f_is_nan (magnitude gx gy) = true \/ f_nonneg (magnitude gx gy) = true.
 Proof. intros. unfold magnitude. apply sqrt_nonneg_or_nan. Qed.
+
+(* ---------------------------------------------------------------------------------------------- *)
+(* 4c. swapping the image left-right negates gx -- over an abstract scalar structure               *)
+(* ---------------------------------------------------------------------------------------------- *)
+(* In binary64 the three hypotheses hold only up to the sign of zero (x - x = +0 = -(x - x) fails bitwise, see
+   flip_float_counterexample), so the fact is stated for any scalar type whose subtraction is antisymmetric and whose
+   multiplication / addition commute with negation; make_gg / make_gx ARE the abstract functions at PrimFloat. *)
+Section AbstractScalar.
+Variable S : Type.
+Variables (add sub mul : S -> S -> S) (opp : S -> S).
+Hypothesis sub_anti : forall a b, sub a b = opp (sub b a).
+Hypothesis mul_opp : forall k a, mul k (opp a) = opp (mul k a).
+Hypothesis add_opp : forall a b, add (opp a) (opp b) = opp (add a b).
+
+Definition gg_abs (k0 k1 k2 v0 v1 v2 v3 v4 v5 : S) : S :=
+  add (add (mul k0 (sub v0 v1)) (mul k1 (sub v2 v3))) (mul k2 (sub v4 v5)).
+Definition gg_reads_abs (k0 k1 k2 : S) (a : Z -> Z -> S) (rs : list (Z * Z)) (d : S) : S :=
+  match map (fun rc => a (fst rc) (snd rc)) rs with
+  | [v0; v1; v2; v3; v4; v5] => gg_abs k0 k1 k2 v0 v1 v2 v3 v4 v5
+  | _ => d
+  end.
+Definition gx_abs (k0 k1 k2 : S) (a : Z -> Z -> S) (row col : Z) (d : S) : S :=
+  gg_reads_abs k0 k1 k2 a (gx_reads row col) d.
+(* the image with in_cols columns, mirrored left-right *)
+Definition flip_lr (in_cols : Z) (a : Z -> Z -> S) : Z -> Z -> S := fun r c => a r (in_cols - 1 - c).
+
+Lemma gg_abs_swap k0 k1 k2 v0 v1 v2 v3 v4 v5 :
+  gg_abs k0 k1 k2 v1 v0 v3 v2 v5 v4 = opp (gg_abs k0 k1 k2 v0 v1 v2 v3 v4 v5).
+Proof.
+  unfold gg_abs. rewrite (sub_anti v1 v0), (sub_anti v3 v2), (sub_anti v5 v4), !mul_opp, !add_opp. reflexivity.
+Qed.
+
+(* output column col of the mirrored image = minus output column (cols - 1 - col) of the original, cols = in_cols - 2 *)
+Lemma gx_flip k0 k1 k2 a in_cols row col d :
+  gx_abs k0 k1 k2 (flip_lr in_cols a) row col d = opp (gx_abs k0 k1 k2 a row (in_cols - 2 - 1 - col) d).
+Proof.
+  unfold gx_abs, gg_reads_abs, gx_reads, flip_lr. cbn [map fst snd].
+  unfold src_gx_r0, src_gx_r1, src_gx_r2, src_gx_r3, src_gx_r4, src_gx_r5,
+         src_gx_c0, src_gx_c1, src_gx_c2, src_gx_c3, src_gx_c4, src_gx_c5.
+  replace (in_cols - 1 - (col + 2)) with (in_cols - 2 - 1 - col) by lia.
+  replace (in_cols - 2 - 1 - col + 2) with (in_cols - 1 - col) by lia.
+  apply gg_abs_swap.
+Qed.
+End AbstractScalar.
+
+Lemma make_gx_is_abstract k0 k1 k2 ic img row col :
+  make_gx (k0, k1, k2) ic img row col =
+  gx_abs float PrimFloat.add PrimFloat.sub PrimFloat.mul k0 k1 k2 (in_at ic img) row col f_nan.
+Proof. reflexivity. Qed.
+
+Lemma t_gradient_flip : forall (S : Type) (add sub mul : S -> S -> S) (opp : S -> S),
+  (forall a b, sub a b = opp (sub b a)) -> (forall k a, mul k (opp a) = opp (mul k a)) ->
+  (forall a b, add (opp a) (opp b) = opp (add a b)) ->
+  (forall k0 k1 k2 a in_cols row col d,
+     gx_abs S add sub mul k0 k1 k2 (flip_lr S in_cols a) row col d =
+     opp (gx_abs S add sub mul k0 k1 k2 a row (in_cols - 2 - 1 - col) d)) /\
+  (* the float model is this abstract function at PrimFloat *)
+  (forall k0 k1 k2 ic img row col,
+     make_gx (k0, k1, k2) ic img row col =
+     gx_abs float PrimFloat.add PrimFloat.sub PrimFloat.mul k0 k1 k2 (in_at ic img) row col f_nan).
+Proof.
+  intros S add sub mul opp H1 H2 H3. split.
+  - intros. apply gx_flip; auto.
+  - intros. reflexivity.
+Qed.
+
+(* in binary64 the identity is false bitwise: a constant image and its mirror both give gx = +0, and -(+0) = -0 *)
+Definition ones9 : list float := map z2f [1; 1; 1; 1; 1; 1; 1; 1; 1].
+Lemma flip_float_counterexample :
+  make_gx (make_kernel3x3 Sobel) 3 ones9 0 0 <> (- make_gx (make_kernel3x3 Sobel) 3 (rev ones9) 0 0)%float /\
+  (make_gx (make_kernel3x3 Sobel) 3 ones9 0 0 =? - make_gx (make_kernel3x3 Sobel) 3 (rev ones9) 0 0)%float = true.
+Proof.
+  split; [|vm_compute; reflexivity].
+  intro H. apply (f_equal Prim2SF) in H. vm_compute in H. discriminate H.
+Qed.
+
+(* ---------------------------------------------------------------------------------------------- *)
+(* 5. the float-valued flatten row = concatenation of the per-feature views                       *)
+(* ---------------------------------------------------------------------------------------------- *)
+Section FlatV.
+Context {V : Type}.
+Variable E : kernel3 -> gfeat -> flag -> list V.
+
+Fixpoint enc_list_v (kern : kernel3) (fs : list gfeat) (fls : list flag) : list V :=
+  match fs with [] => [] | g :: r => E kern g (hd Normal fls) ++ enc_list_v kern r (tl fls) end.
+Fixpoint enc_gens_v (kerns : list kernel3) (gs : gens) (fl : flags) : list V :=
+  match gs with
+  | [] => []
+  | fs :: r => enc_list_v (hd Sobel kerns) fs (hd [] fl) ++ enc_gens_v (tl kerns) r (tl fl)
+  end.
+
+Lemma enc_list_v_len kern fs fls :
+  (forall g fl, In g fs -> zlen (E kern g fl) = g_colsize g) -> zlen (enc_list_v kern fs fls) = colsum fs.
+Proof.
+  revert fls; induction fs as [|g fs IH]; intros fls H; cbn; [reflexivity|].
+  rewrite zlen_app, H by (left; auto). unfold colsum in *. cbn. rewrite IH; auto. intros; apply H; right; auto.
+Qed.
+
+Lemma flat_gen_v_spec kern : forall fs fls pre rest post,
+  (forall g fl, In g fs -> zlen (E kern g fl) = g_colsize g) ->
+  zlen rest = colsum fs ->
+  flat_gen_v E kern fs fls (zlen pre) (pre ++ rest ++ post) = pre ++ enc_list_v kern fs fls ++ post.
+Proof.
+  induction fs as [|g fs IH]; intros fls pre rest post Henc Hlen; cbn.
+  - unfold colsum in Hlen; cbn in Hlen. destruct rest; [reflexivity | unfold zlen in Hlen; cbn in Hlen; lia].
+  - set (e := E kern g (hd Normal fls)).
+    assert (He : zlen e = g_colsize g) by (apply Henc; left; auto).
+    assert (Hc : colsum (g :: fs) = g_colsize g + colsum fs) by reflexivity.
+    assert (Hcs : 0 <= colsum fs).
+    { rewrite <- (enc_list_v_len kern fs (tl fls)); [unfold zlen; lia|]. intros; apply Henc; right; auto. }
+    set (c := Z.to_nat (g_colsize g)).
+    assert (Hr : rest = firstn c rest ++ skipn c rest) by (symmetry; apply firstn_skipn).
+    assert (Lf : length (firstn c rest) = length e).
+    { rewrite firstn_length. unfold zlen in *. lia. }
+    rewrite Hr, <- app_assoc.
+    replace (Z.to_nat (zlen pre)) with (length pre) by (unfold zlen; lia).
+    rewrite write_seg_app by auto.
+    replace (zlen pre + g_colsize g) with (zlen (pre ++ e)) by (rewrite zlen_app; lia).
+    rewrite (app_assoc pre e).
+    rewrite IH.
+    + rewrite <- !app_assoc. reflexivity.
+    + intros; apply Henc; right; auto.
+    + unfold zlen in *. rewrite skipn_length. lia.
+Qed.
+
+Lemma enc_gens_v_len kerns gs fl :
+  (forall kern g f, In g (concat gs) -> zlen (E kern g f) = g_colsize g) ->
+  zlen (enc_gens_v kerns gs fl) = zsum (map colsum gs).
+Proof.
+  revert kerns fl; induction gs as [|fs gs IH]; intros kerns fl H; cbn; [reflexivity|].
+  rewrite zlen_app, enc_list_v_len, IH; [reflexivity| |].
+  - intros; apply H; cbn; apply in_or_app; right; auto.
+  - intros; apply H; cbn; apply in_or_app; left; auto.
+Qed.
+
+Lemma flat_gens_v_spec : forall gs kerns fl gm pre rest post,
+  (forall kern g f, In g (concat gs) -> zlen (E kern g f) = g_colsize g) ->
+  gm = map colsum gs ->
+  zlen rest = zsum (map colsum gs) ->
+  flat_gens_v E kerns gs fl gm (zlen pre) (pre ++ rest ++ post) = pre ++ enc_gens_v kerns gs fl ++ post.
+Proof.
+  induction gs as [|fs gs IH]; intros kerns fl gm pre rest post Henc Hgm Hlen; cbn.
+  - cbn in Hlen. destruct rest; [reflexivity | unfold zlen in Hlen; cbn in Hlen; lia].
+  - subst gm. cbn [map hd tl]. cbn in Hlen.
+    assert (Hfs : forall kern g f, In g fs -> zlen (E kern g f) = g_colsize g).
+    { intros; apply Henc; cbn; apply in_or_app; left; auto. }
+    assert (Hcs : 0 <= colsum fs).
+    { rewrite <- (enc_list_v_len Sobel fs []); [unfold zlen; lia | auto]. }
+    assert (Hgs : 0 <= fold_right Z.add 0 (map colsum gs)).
+    { change (fold_right Z.add 0 (map colsum gs)) with (zsum (map colsum gs)).
+      rewrite <- (enc_gens_v_len [] gs []); [unfold zlen; lia|].
+      intros; apply Henc; cbn; apply in_or_app; right; auto. }
+    set (c := Z.to_nat (colsum fs)).
+    assert (Hr : rest = firstn c rest ++ skipn c rest) by (symmetry; apply firstn_skipn).
+    rewrite Hr, <- app_assoc.
+    rewrite flat_gen_v_spec; auto.
+    2:{ unfold zlen in *. rewrite firstn_length. lia. }
+    set (e := enc_list_v (hd Sobel kerns) fs (hd [] fl)).
+    assert (He : zlen e = colsum fs) by (apply enc_list_v_len; auto).
+    replace (zlen pre + colsum fs) with (zlen (pre ++ e)) by (rewrite zlen_app; lia).
+    rewrite (app_assoc pre e).
+    rewrite IH; auto.
+    + rewrite <- !app_assoc. reflexivity.
+    + intros; apply Henc; cbn; apply in_or_app; right; auto.
+    + unfold zlen, zsum in *. rewrite skipn_length. lia.
+Qed.
+
+End FlatV.
+
+Lemma enc_gens_v_ext {V} (E1 E2 : kernel3 -> gfeat -> flag -> list V) : forall gs kerns fl,
+  (forall kern g f, In g (concat gs) -> E1 kern g f = E2 kern g f) ->
+  enc_gens_v E1 kerns gs fl = enc_gens_v E2 kerns gs fl.
+Proof.
+  induction gs as [|fs gs IH]; intros kerns fl H; cbn; [reflexivity|].
+  f_equal.
+  - assert (L : forall fs' fls, (forall g, In g fs' -> In g fs) ->
+                enc_list_v E1 (hd Sobel kerns) fs' fls = enc_list_v E2 (hd Sobel kerns) fs' fls).
+    { induction fs' as [|g fs' IH']; intros fls Hin; cbn; [reflexivity|].
+      rewrite H by (cbn; apply in_or_app; left; apply Hin; left; auto).
+      f_equal. apply IH'. intros; apply Hin; right; auto. }
+    apply L; auto.
+  - apply IH. intros; apply H; cbn; apply in_or_app; right; auto.
+Qed.
+
+(* a gradient feature as fit builds it: float64 descriptor (1, rows, cols) with rows, cols >= 0 *)
+Definition grad_ok (g : gfeat) : Prop :=
+  g_kind g = GGradient ->
+  f_type (g_desc g) = TF64 /\ f_d0 (g_desc g) = 1 /\ 0 <= grad_rows g /\ 0 <= grad_cols g.
+Definition gens_ok_f (rd : reader) (gs : gens) : Prop :=
+  gens_ok rd gs /\ forall g, In g (concat gs) -> grad_ok g.
+
+(* the per-feature piece of the row: the encoded per-feature (select) view *)
+Definition view_enc_f atan2 (s : Z) (rd : reader) (kern : kernel3) (g : gfeat) (fl : flag) : frow :=
+  match g_kind g with
+  | GGradient => select_view_f atan2 kern rd g fl s
+  | _ => map zcell2f (encode_view (f_classes (g_desc g)) (select_view rd g fl s))
+  end.
+
+Lemma grad_image_len atan2 kern g v : 0 <= grad_rows g -> 0 <= grad_cols g ->
+  zlen (grad_image atan2 kern g v) = grad_rows g * grad_cols g.
+Proof. intros. unfold grad_image. rewrite gradient3x3_image. apply image_len; auto. Qed.
+
+Lemma grad_colsize g : cols_ok g -> grad_ok g -> g_kind g = GGradient ->
+  g_colsize g = grad_rows g * grad_cols g /\ fsize (g_desc g) = grad_rows g * grad_cols g.
+Proof.
+  intros Hc Hg Hk. destruct (Hg Hk) as (T & D0 & _ & _).
+  unfold cols_ok, desc_cols in Hc. rewrite T in Hc. unfold src_cols_struct in Hc.
+  unfold fsize, grad_rows, grad_cols in *. rewrite D0 in *. lia.
+Qed.
+
+Lemma enc_flat_f_view atan2 rd kern g fl s :
+  cols_ok g -> value_ok rd g -> grad_ok g ->
+  enc_flat_f atan2 kern rd g fl s = view_enc_f atan2 s rd kern g fl.
+Proof.
+  intros Hc Hv Hg. unfold enc_flat_f, view_enc_f, select_view_f.
+  destruct (g_kind g) eqn:K; try (rewrite enc_flat_encode by auto; reflexivity).
+  destruct (grad_colsize g Hc Hg K) as [E1 E2]. rewrite E1, E2. reflexivity.
+Qed.
+
+Lemma enc_flat_f_len atan2 rd kern g fl s :
+  cols_ok g -> value_ok rd g -> 0 <= g_colsize g -> grad_ok g ->
+  zlen (enc_flat_f atan2 kern rd g fl s) = g_colsize g.
+Proof.
+  intros Hc Hv Hn Hg. unfold enc_flat_f.
+  assert (Zm : forall A B (f : A -> B) l, zlen (map f l) = zlen l) by (intros; unfold zlen; rewrite map_length; reflexivity).
+  destruct (g_kind g) eqn:K; try (rewrite Zm; apply enc_flat_len; auto).
+  destruct (grad_colsize g Hc Hg K) as [E1 _]. destruct (Hg K) as (_ & _ & R & C).
+  destruct (grad_source rd g fl s).
+  - rewrite Zm, grad_image_len; auto.
+  - apply zlen_zrepeat; auto.
+Qed.
+
+Lemma flat_row_f_spec atan2 kerns rd gs fl s r :
+  gens_ok_f rd gs -> zlen r = columns gs ->
+  flat_row_f atan2 kerns rd gs fl s r = enc_gens_v (view_enc_f atan2 s rd) kerns gs fl.
+Proof.
+  intros [Hok Hg] Hlen. unfold flat_row_f, generator_mapping.
+  assert (Hcols : Forall (Forall cols_ok) gs).
+  { apply Forall_forall. intros fs Hfs. apply Forall_forall. intros g Hin. apply Hok. apply in_concat. eauto. }
+  pose proof (flat_gens_v_spec (fun kern g f => enc_flat_f atan2 kern rd g f s) gs kerns fl (genmap_from 0 gs) [] r []) as H.
+  cbn [app] in H. rewrite !app_nil_r in H. change (zlen []) with 0 in H. rewrite H.
+  - apply enc_gens_v_ext. intros kern g f Hin. destruct (Hok g Hin) as (H1 & H2 & H3).
+    apply enc_flat_f_view; auto.
+  - intros kern g f Hin. destruct (Hok g Hin) as (H1 & H2 & H3). apply enc_flat_f_len; auto.
+  - apply genmap_from_spec; auto.
+  - rewrite Hlen. apply columns_colsum; auto.
+Qed.
+
+(* every gradient feature built by fit satisfies grad_ok when the source dims are >= 0 *)
+Lemma fit_grad_ok st k ids1 ids2 :
+  (forall i, 0 <= f_d1 (ds_feature st i) - 2 /\ 0 <= f_d2 (ds_feature st i) - 2 \/
+             src_grad_applies (f_d1 (ds_feature st i)) (f_d2 (ds_feature st i)) = false) ->
+  Forall grad_ok (fit st k ids1 ids2).
+Proof.
+  intro Hd. apply Forall_forall. intros g Hg Hk. unfold fit in Hg.
+  destruct k; unfold fit_identity, fit_product, fit_gradient in Hg;
+    try (apply in_map_iff in Hg; destruct Hg as (x & <- & _); cbn in Hk; try destruct x; discriminate Hk).
+  apply in_flat_map in Hg. destruct Hg as (i & _ & Hg).
+  destruct (src_grad_applies _ _) eqn:A; [|destruct Hg].
+  unfold grad_block in Hg. apply in_flat_map in Hg. destruct Hg as (ch & _ & Hg).
+  apply in_map_iff in Hg. destruct Hg as (ty & <- & _).
+  unfold grad_rows, grad_cols, f64, src_grad_out_channels, src_grad_out_rows, src_grad_out_cols. cbn [g_desc f_type f_d0 f_d1 f_d2].
+  destruct (Hd i) as [[B1 B2]|B]; [repeat split; auto | congruence].
+Qed.
+
+Lemma t_views_agree_gradient : forall atan2 kerns rd gs fl s r,
+  gens_ok_f rd gs -> zlen r = columns gs ->
+  (* the float-valued row is the concatenation of the encoded per-feature views, whatever the stale buffer *)
+  flat_row_f atan2 kerns rd gs fl s r = enc_gens_v (view_enc_f atan2 s rd) kerns gs fl /\
+  (* ... and the piece of a gradient feature is its select view = the row-major gradient image of the source sample
+     (at the permuted sample if shuffled), all NaN when the feature is dropped or the source sample is not given *)
+  (forall kern g f, In g (concat gs) -> g_kind g = GGradient ->
+     view_enc_f atan2 s rd kern g f = select_view_f atan2 kern rd g f s /\
+     zlen (view_enc_f atan2 s rd kern g f) = g_colsize g /\ g_colsize g = grad_rows g * grad_cols g /\
+     (forall v, is_dropped f = false -> rd (g_o1 g) (eff_sample f s) = Some v ->
+        view_enc_f atan2 s rd kern g f = map Some (grad_image atan2 kern g v) /\
+        forall row col, 0 <= row < grad_rows g -> 0 <= col < grad_cols g ->
+          znth (row * grad_cols g + col) (view_enc_f atan2 s rd kern g f) None =
+          Some (grad_cell atan2 (grad_mode g) (make_kernel3x3 kern) (src_grad_in_cols (grad_cols g)) (grad_input g v) row col)) /\
+     (is_dropped f = true \/ rd (g_o1 g) (eff_sample f s) = None ->
+        view_enc_f atan2 s rd kern g f = zrepeat None (g_colsize g))).
+Proof.
+  intros atan2 kerns rd gs fl s r Hok Hlen. split; [apply flat_row_f_spec; auto|].
+  intros kern g f Hin Hk. destruct Hok as [Hok Hg]. destruct (Hok g Hin) as (H1 & H2 & H3).
+  specialize (Hg g Hin). destruct (grad_colsize g H1 Hg Hk) as [E1 E2]. destruct (Hg Hk) as (_ & _ & R & C).
+  assert (VE : view_enc_f atan2 s rd kern g f = select_view_f atan2 kern rd g f s) by (unfold view_enc_f; rewrite Hk; reflexivity).
+  split; [exact VE|]. split.
+  { rewrite <- (enc_flat_f_view atan2 rd kern g f s) by auto. apply enc_flat_f_len; auto. }
+  split; [exact E1|]. split.
+  - intros v Hd Hv. rewrite VE. unfold select_view_f, grad_source. rewrite Hk, Hd, Hv. split; [reflexivity|].
+    intros row col Hr Hc. unfold grad_image. rewrite gradient3x3_image. unfold znth.
+    rewrite (nth_map_lt _ _ _ _ f_nan).
+    + f_equal. apply (image_nth _ (grad_rows g) (grad_cols g) row col f_nan); auto.
+    + pose proof (image_len (grad_cell atan2 (grad_mode g) (make_kernel3x3 kern) (src_grad_in_cols (grad_cols g)) (grad_input g v))
+                            (grad_rows g) (grad_cols g) R C) as L. unfold zlen in L. nia.
+  - intros Hm. rewrite VE. unfold select_view_f, grad_source. rewrite Hk, E2, E1.
+    destruct Hm as [Hm|Hm]; [rewrite Hm; reflexivity|]. destruct (is_dropped f); [reflexivity|]. rewrite Hm. reflexivity.
+Qed.
